@@ -450,10 +450,31 @@ def rule_C1(ctx):
     for path, q, cons in (("smpl_extract/alcohol/mdf.py", "is_mdf_image", "MdfSectorHeaderConstruct"), ("smpl_extract/alcohol/mdx.py", "is_mdx_image", "MdxHeaderConstruct"),
                           ("smpl_extract/roland/s7xx/image.py", "is_roland_s7xx_image", "IdAreaAdapterParser")):
         f = ctx.fn(path, q, "C1")
-        t = full(f)
         s = f.args.args[0].arg
-        ok = f"{s}.seek(0, SEEK_SET)" in t and f"{cons}.parse_stream({s})" in t and "result = False" in t and "result = True" in t
-        ctx.ob("C1", f, f"{q} parses its signature struct at offset 0 and answers False on a parse error", ok, "", inst=f"probe:{q}")
+        ok, det = True, ""
+        n_true = n_false = 0
+        for p in run_paths(ctx, f, include_exc=True, rule="C1", limit=2000):
+            if p.end != "return":
+                continue
+            if any((c == "truthy(0)" and t) or (c == "truthy(1)" and not t) for c, t, _ in p.conds):
+                continue
+            ops = [(norm(c.func), evaluator(ctx, f, e).ev(c).key()) for c, e, st in calls_on(p)]
+            parse_i = [i for i, (n_, k_) in enumerate(ops) if k_ == f"{cons}.parse_stream({s})"]
+            seek0 = [i for i, (n_, k_) in enumerate(ops) if k_ in (f"{s}.seek(0,SEEK_SET)", f"{s}.seek(0,0)", f"{s}.seek(0)")]
+            via_h = any(s_.kind == "except" and "ConstructError" in handler_names(s_.ast) for s_ in p.steps)
+            ret = p.ret.key() if p.ret is not None else None
+            if len(parse_i) != 1 or not [i for i in seek0 if i < parse_i[0]] or any(n_.endswith((".seek", ".read")) and seek0 and max(i2 for i2 in seek0 if i2 < parse_i[0]) < i < parse_i[0] for i, (n_, k_) in enumerate(ops)):
+                ok, det = False, f"the signature struct is not parsed right after an absolute seek to offset 0: {[k_ for n_, k_ in ops][:6]}"
+            elif via_h:
+                n_false += 1
+                if ret != "0":
+                    ok, det = False, f"after a parse error the probe answers `{ret}`"
+            else:
+                n_true += 1
+                if ret != "1":
+                    ok, det = False, f"after a successful parse the probe answers `{ret}`"
+        ok = ok and n_true >= 1 and n_false >= 1
+        ctx.ob("C1", f, f"{q} parses its signature struct at offset 0 and answers False on a parse error", ok, det, inst=f"probe:{q}")
     # Roland id-area regexes
     ia = "smpl_extract/roland/s7xx/image.py"
     for nm, must in (("_S7XX_REGEX", "S7"), ("_VERSION_REGEX", "Ver"), ("_COPYRIGHT_REGEX", "Copyright")):
@@ -467,10 +488,73 @@ def rule_C1(ctx):
             ok = False
         ctx.ob("C1", node, f"Roland signature regex {nm} is a valid case-insensitive pattern containing `{must}`", ok, pat[:60], inst=nm, file=ia, qualname="IdAreaAdapter")
     dec = ctx.fn(ia, "IdAreaAdapter._decode", "C1")
-    t = full(dec)
-    ok = "(container.s7xx_str, self._S7XX_REGEX)" in t and "(container.version_str, self._VERSION_REGEX)" in t and "(container.copyright_str, self._COPYRIGHT_REGEX)" in t \
-        and "if not match_result: raise ConstructError" in t
-    ctx.ob("C1", dec, "all three id-area strings must match their regex, else the image is not Roland", ok, "", inst="id-verify")
+    import re as _re
+    need = {("_S7XX_REGEX", "s7xx_str"), ("_VERSION_REGEX", "version_str"), ("_COPYRIGHT_REGEX", "copyright_str")}
+    ok, det, n_ret = True, "", 0
+    # table-driven form: for (string, regex) in <tuple of pairs>: if not regex.match(string): raise ConstructError
+    table_pairs = set()
+    from .sem import single_defs
+    sd_ = single_defs(dec)
+    dcfg = ctx.cfg(dec, "C1")
+    for f_ in own_nodes(dec):
+        if not (isinstance(f_, ast.For) and isinstance(f_.target, ast.Tuple) and len(f_.target.elts) == 2):
+            continue
+        it = f_.iter
+        if isinstance(it, ast.Name) and it.id in sd_:
+            it = sd_[it.id]
+        if not (isinstance(it, (ast.Tuple, ast.List)) and all(isinstance(e, (ast.Tuple, ast.List)) and len(e.elts) == 2 for e in it.elts)):
+            continue
+        a_, b_ = f_.target.elts[0].id, f_.target.elts[1].id
+        lp_ = dcfg.loop_of(f_)
+        good = True
+        seen_raise = False
+        for kind, path, edge in dcfg.iteration_paths(lp_, skip_labels=("exc",)):
+            if kind == "exit" and len(path) == 1:
+                continue
+            pr = _walk(ctx, dec, dcfg, path)
+            mt_ = None
+            for c, t, _n in pr.conds:
+                x, ng = c, False
+                while x.startswith("not(") and x.endswith(")"):
+                    x, ng = x[4:-1], not ng
+                for rv, sv in ((b_, a_), (a_, b_)):
+                    if x in (f"truthy(({rv}~).match({sv}~))", f"truthy({rv}~.match({sv}~))"):
+                        mt_ = ((t != ng), rv, sv)
+            if mt_ is None:
+                good = False
+            elif mt_[0] and kind != "back":
+                good = False
+            elif not mt_[0]:
+                raised = [s_ for s_ in pr.steps if s_.kind == "raise"]
+                if kind == "back" or not raised or not norm(raised[-1].ast).endswith("ConstructError"):
+                    good = False
+                seen_raise = True
+        if good and seen_raise:
+            rv_first = mt_[1] == a_ if mt_ else False
+            for e in it.elts:
+                x0, x1 = norm(e.elts[0]), norm(e.elts[1])
+                rg, st_ = (x0, x1) if rv_first else (x1, x0)
+                table_pairs.add((rg.split(".")[-1], st_.split(".")[-1]))
+    if need <= table_pairs:
+        ctx.ob("C1", dec, "all three id-area strings must match their regex, else the image is not Roland", True, "", inst="id-verify")
+        return
+    for p in run_paths(ctx, dec, rule="C1", limit=4000):
+        pos, neg_ = set(), set()
+        for c, t, _n in p.conds:
+            x, ng = c, False
+            while x.startswith("not(") and x.endswith(")"):
+                x, ng = x[4:-1], not ng
+            m = _re.fullmatch(r"truthy\(self\.(_\w+_REGEX)\.match\(.*?\.?(\w+_str)\)\)", x)
+            if m:
+                (pos if (t != ng) else neg_).add((m.group(1), m.group(2)))
+        if p.end == "return":
+            n_ret += 1
+            if not need <= pos:
+                ok, det = False, f"a path returns an IdArea having verified only {sorted(pos)}"
+        elif p.end == "raise" and neg_ and not (p.raised or "").endswith("ConstructError"):
+            ok, det = False, f"a failed signature match raises {p.raised}"
+    ok = ok and n_ret >= 1
+    ctx.ob("C1", dec, "all three id-area strings must match their regex, else the image is not Roland", ok, det, inst="id-verify")
 
 
 def rule_C2(ctx):
